@@ -429,3 +429,24 @@ def check_replace_placeholders(ctx, rule, fx):
             if leaves.norm(sym.Eval(fx, inline_depth=0).function(b, [n_, M])) != n_:
                 bad.append(k_)
         ctx.add(rule, "placeholders:other-terms", not bad, ctx.site(b), "every other term is left as it is: %s" % (bad or "ok"))
+
+
+def check_structural_identity(ctx, rule, fx, prefix="syntax_tree::"):
+    """Predicates, function constants, variables, terms and formulas are kept in sets and maps (IndexSet / IndexMap / BTreeSet): two of them
+    are the same element exactly when all their fields agree (name *and* sort, symbol *and* arity).  That holds when equality, hashing and
+    ordering of the syntax-tree types are the derived, field-by-field ones; a hand-written impl that looks at some of the fields merges
+    distinct items (one declaration for `n$i` and `n$g`, one transition axiom for p/0 and p/1)."""
+    by_ty = {}
+    for i in fx.impls:
+        st = str(i.get("self_ty", ""))
+        if st.startswith(prefix) and i.get("trait") in ("std::cmp::PartialEq", "std::cmp::Eq", "std::hash::Hash", "std::cmp::Ord", "std::cmp::PartialOrd", "std::marker::StructuralPartialEq"):
+            by_ty.setdefault(st, {}).setdefault(i["trait"], []).append(i)
+    n = 0
+    for st, tr in sorted(by_ty.items()):
+        hand = sorted(t_.split("::")[-1] for t_, is_ in tr.items() if any(not x.get("from_expansion") for x in is_))
+        derived_eq = "std::cmp::PartialEq" not in tr or "std::marker::StructuralPartialEq" in tr
+        n += 1
+        ctx.add(rule, "identity:%s" % st.split("::", 1)[1], not hand and derived_eq, "%s:%s" % (tr[sorted(tr)[0]][0].get("file"), tr[sorted(tr)[0]][0].get("line")),
+                "equality / hashing / ordering of %s are derived (field by field)%s" % (st.split("::")[-1], ": hand-written %s" % hand if hand else ""), nontrivial=bool(hand) or not derived_eq)
+    ctx.floor(rule, "identity_types", n, 40)
+    return n
